@@ -173,14 +173,35 @@ def _cancel(n, d):
         if dc != 1:
             n, d = n.scale(1 / dc), Poly({dm: Fr(1)})
         return n, d
-    key = (n, d)
+    key = (n, d, len(CTX.rules.rules))
     hit = _CANCEL.get(key)
     if hit is None:
-        q = _sp.cancel(_poly_to_sympy(n) / _poly_to_sympy(d))
-        nn, dd = _sp.fraction(q)
-        nn, dd = normal(_sympy_to_poly(nn)), normal(_sympy_to_poly(dd))
+        best = None
+        # common factors may only be visible under another orientation of a sphere/circle rule
+        # (1 - x^2 - y^2 = z^2 on the unit sphere): try each representative, keep the simplest result
+        nforms = _alt_forms(n) if len(n.t) <= 60 else [n]
+        dforms = _alt_forms(d) if len(d.t) <= 60 else [d]
+        for nf in nforms:
+            for df in dforms:
+                if df.is_zero():
+                    continue
+                q = _sp.cancel(_poly_to_sympy(nf) / _poly_to_sympy(df))
+                nn, dd = _sp.fraction(q)
+                nn, dd = normal(_sympy_to_poly(nn)), normal(_sympy_to_poly(dd))
+                if dd.is_zero():
+                    continue
+                score = (0 if dd.is_const() else (1 if dd.is_monomial() else 2), len(dd.t) + len(nn.t))
+                if best is None or score < best[0]:
+                    best = (score, nn, dd)
+                if score[0] == 0:
+                    break
+            if best is not None and best[0][0] == 0:
+                break
+        _, nn, dd = best
         if dd.is_const():
             nn, dd = nn.scale(1 / dd.const_val()), Poly.const(1)
+        elif dd.is_monomial():
+            nn, dd = _cancel(nn, dd)
         else:
             # normalise sign/scale of denominator: leading coefficient 1 on the smallest monomial
             m0 = min(dd.t)
@@ -532,6 +553,7 @@ class SBool:
             d = c.decisions[c.pos]
             c.pos += 1
             c.pc.append((self if d else snot(self), zf if d else z3.Not(zf), _caller_label()))
+            _record_bound(c.pc[-1][0])
             return d
         if c.no_fork:
             raise Unsupported('symbolic branch inside a no-fork region: %r' % self)
@@ -551,6 +573,7 @@ class SBool:
         c.decisions = c.decisions[:c.pos] + [d]
         c.pos += 1
         c.pc.append((self if d else snot(self), zf if d else z3.Not(zf), _caller_label()))
+        _record_bound(c.pc[-1][0])
         return d
 
     def __and__(a, b):
@@ -781,6 +804,7 @@ def _known_sign(x):
 def solver(timeout=10000, with_pc=True):
     s = z3.Solver()
     s.set('timeout', int(timeout))
+    s._pv_timeout = int(timeout)
     for f in CTX.facts:
         s.add(f)
     for f in CTX.assume:
@@ -791,9 +815,23 @@ def solver(timeout=10000, with_pc=True):
     return s
 
 
-def check(s):
+import threading as _threading
+
+
+def check(s, hard_ms=None):
+    """s.check() with a hard limit: nlsat does not always honour the soft timeout, so a timer thread
+    interrupts the context shortly after it"""
     t = time.time()
-    r = s.check()
+    limit = (hard_ms if hard_ms is not None else getattr(s, '_pv_timeout', 20000)) / 1000.0 + 1.5
+    timer = _threading.Timer(limit, s.ctx.interrupt)
+    timer.daemon = True
+    timer.start()
+    try:
+        r = s.check()
+    except z3.Z3Exception:
+        r = z3.unknown
+    finally:
+        timer.cancel()
     CTX.tsolver += time.time() - t
     CTX.nsolver += 1
     return r
@@ -834,6 +872,22 @@ def _record_bound(b):
         CTX.poly_lower[q] = max(CTX.poly_lower.get(q, -c0), -c0)      # q + c0 >= 0
     else:
         CTX.poly_upper[q] = min(CTX.poly_upper.get(q, -c0), -c0)
+    if q.is_monomial() and c0 == 0:
+        # k * x * y >= 0 (or <= 0) with x of known strict sign  =>  sign of y
+        (m, k), = q.t.items()
+        if len(m) == 2 and m[0][1] == 1 and m[1][1] == 1:
+            for (x, _), (y, _) in ((m[0], m[1]), (m[1], m[0])):
+                bx = CTX.bounds.get(x, (None, None))
+                sx = 1 if (bx[0] is not None and bx[0] > 0) or CTX.sign.get(x) == 'pos' else (-1 if bx[1] is not None and bx[1] < 0 else 0)
+                if sx:
+                    sgn = (1 if k > 0 else -1) * sx * (1 if b.a in ('>=', '>') else -1)
+                    lo, hi = CTX.bounds.get(y, (None, None))
+                    if sgn > 0:
+                        lo = Fr(0) if lo is None else max(lo, Fr(0))
+                    else:
+                        hi = Fr(0) if hi is None else min(hi, Fr(0))
+                    CTX.bounds[y] = (lo, hi)
+                    break
     if q.is_monomial():
         (m, k), = q.t.items()
         if len(m) == 1 and m[0][1] == 1:
@@ -875,7 +929,7 @@ def sabs(a):
     if a.is_const():
         return SReal.lift(abs(a.const()))
     a = a.simp()
-    sg = _known_sign(a)
+    sg = _known_sign(a) or _interval_sign(a)
     if sg in ('pos', 'nonneg'):
         return a
     if sg in ('neg', 'nonpos'):
@@ -946,6 +1000,26 @@ def _sqrt_basic(x):
     return SReal.var(CTX.atoms[key])
 
 
+def _int_square_part(n):
+    """n = a^2 * r with r square-free as far as trial division to 2000 finds"""
+    a, r = 1, 1
+    f = 2
+    while f * f <= n and f < 2000:
+        e = 0
+        while n % f == 0:
+            n //= f
+            e += 1
+        a *= f ** (e // 2)
+        r *= f ** (e % 2)
+        f += 1
+    rt = _math.isqrt(n)
+    if rt * rt == n:
+        a *= rt
+    else:
+        r *= n
+    return a, r
+
+
 def _split_squares(p):
     if p.is_const():
         return ONE, p
@@ -953,10 +1027,18 @@ def _split_squares(p):
         (m, c), = p.t.items()
         q = tuple((v, e // 2) for v, e in m if e // 2)
         r = tuple((v, e % 2) for v, e in m if e % 2)
-        return Poly({q: Fr(1)}), Poly({r: c})
+        sgn = -1 if c < 0 else 1
+        pa, pr = _int_square_part(abs(c.numerator))
+        qa, qr = _int_square_part(c.denominator)
+        return Poly({q: Fr(pa, qa * qr)}), Poly({r: Fr(sgn * pr * qr)})
     c, fl = _sp.factor_list(_poly_to_sympy(p))
     c = Fr(int(c.p), int(c.q))
-    q, r = ONE, Poly.const(c)
+    # square part of the rational constant: c = (a/b)^2 * c'   (sqrt(16 - 16 x^2) = 4 sqrt(1 - x^2))
+    sgn = -1 if c < 0 else 1
+    pa, pr = _int_square_part(abs(c.numerator))
+    qa, qr = _int_square_part(c.denominator)
+    # c = pa^2 pr / (qa^2 qr) = (pa/(qa qr))^2 * (pr qr)
+    q, r = Poly.const(Fr(pa, qa * qr)), Poly.const(sgn * pr * qr)
     for f, k in fl:
         fp = _sympy_to_poly(f)
         if k // 2:
@@ -1528,3 +1610,32 @@ def subs_zero(x, th):
     if d.is_zero():
         raise ZeroDivisionError('subs_zero: denominator vanishes')
     return SReal(n, d).simp()
+
+
+def is_threshold_path():
+    """does the path condition contain a successful threshold test  P < c / P <= c  with 0 < c <= 1e-6 ?
+    (the code returns an approximation by design on such a path)"""
+    for b, _z, _l in CTX.pc:
+        if _is_threshold(b):
+            return True
+    return False
+
+
+def _is_threshold(b):
+    if not isinstance(b, SBool):
+        return False
+    if b.k == 'and':
+        return _is_threshold(b.a) or _is_threshold(b.b)
+    if b.k == 'or':
+        return _is_threshold(b.a) and _is_threshold(b.b)
+    if b.k != 'cmp' or not b.b.d.is_const():
+        return False
+    p = b.b.n.scale(1 / b.b.d.const_val())
+    q, c0 = _split_const(p)
+    if q.is_zero() or c0 == 0:
+        return False
+    if b.a in ('<', '<='):
+        return 0 < -c0 <= Fr(1, 10 ** 6)         # q < -c0 , tiny positive
+    if b.a in ('>', '>='):
+        return 0 < c0 <= Fr(1, 10 ** 6)          # -q < c0
+    return False
